@@ -68,8 +68,20 @@ structure IState where
   stage : List DownStage
   cancelable : List Bool
 
-def handlerObs (peer : Nat) (p : Packet) (conn : Nat) : String :=
-  s!"handler:peer{peer}:{p.id.toNat}:{p.code}:{showAttrs p.attrs}:{hexOf p.secret}:local{conn}:ctx=true"
+def handlerObs (peer : Nat) (p : Packet) (conn : Nat) (serverCtx : Bool := true) : String :=
+  s!"handler:peer{peer}:{p.id.toNat}:{p.code}:{showAttrs p.attrs}:{hexOf p.secret}:local{conn}:ctx={boolStr serverCtx}"
+
+/-- the `Request` the model built for goroutine `t` (the `request` event of the `taskRun` step) -/
+def requestOf (s : St) (t : Nat) : Option (Packet × Nat × Nat × Ctx) :=
+  s.log.findSome? fun e => match e with
+    | .request t' p remote localConn ctx => if t' == t then some (p, remote, localConn, ctx) else none
+    | _ => none
+
+/-- socket and destination of the last `reply` event, if the log ends with one -/
+def lastReply (s : St) : Option (Nat × Nat) :=
+  match s.log.getLast? with
+  | some (.reply _ conn addr) => some (conn, addr)
+  | _ => none
 
 /-- reply written by the handler for task `t`: `conn>addr:conn:auth:code`, or nothing when Encode refuses -/
 def replyObs (conn peer : Nat) (req : Packet) (reqWire : Bytes) (code : Nat) : String :=
@@ -154,24 +166,37 @@ def scenarioCase (args : List String) (impl : String) : Verdict :=
              | _ => next is "D=noop")
           | .d t =>
             (match s.tasks[t]? with
-             | some ⟨i, .spawned fate⟩ =>
+             | some ⟨_, .spawned fate⟩ =>
                (match step md5 cfg s (.taskRun t) with
                 | some s' =>
-                  (match s'.tasks[t]?, fate with
-                   | some ⟨_, .inHandler _⟩, .handle (peer, _) p => next { is with st := s' } ("d=" ++ handlerObs peer p (s.connOf.getD i 0))
-                   | _, _ => next { is with st := s' } "d=dropped")
+                  -- the observation is the model's `request` event: packet, RemoteAddr, LocalAddr's conn, ctx
+                  (match s'.tasks[t]?, fate, requestOf s' t with
+                   | some ⟨_, .inHandler _⟩, .handle _ _, some (p, remote, localConn, ctx) =>
+                     next { is with st := s' } ("d=" ++ handlerObs remote p localConn (ctx == .server))
+                   | some ⟨_, .inHandler _⟩, _, _ => next { is with st := s' } "d=handler-without-request"
+                   | _, _, _ => next { is with st := s' } "d=dropped")
                 | none => next is "d=noop")
              | _ => next is "d=noop")
           | .F t code =>
             (match s.tasks[t]? with
              | some ⟨i, .inHandler _⟩ =>
-               (match step md5 cfg s (.taskFinish t), dgrams[t]? with
-                | some s', some (_, peer, d) =>
+               -- a handler that replies calls Write before it returns: the model's `taskReply` step names
+               -- the socket and the destination (`reply` event); without a reply only `taskFinish` is taken
+               (match dgrams[t]? with
+                | some (_, peer, d) =>
                   let req := match classify md5 cfg peer d with
                     | .handle _ p => p
                     | _ => ⟨0, 0, [], [], []⟩
-                  next { is with st := s' } ("F=done" ++ replyObs (s.connOf.getD i 0) peer req d code)
-                | _, _ => next is "F=noop")
+                  -- `Write` reaches `conn.WriteTo` only when `Encode` succeeded
+                  let writes := replyObs 0 0 req d code != ""
+                  let sR := if writes then (step md5 cfg s (.taskReply t)).getD s else s
+                  let (rconn, raddr) := match (if writes then lastReply sR else none) with
+                    | some ca => ca
+                    | none => (s.connOf.getD i 0, s.peerOf t)
+                  (match step md5 cfg sR (.taskFinish t) with
+                   | some s' => next { is with st := s' } ("F=done" ++ replyObs rconn raddr req d code)
+                   | none => next is "F=noop")
+                | none => next is "F=noop")
              | _ => next is "F=noop")
           | .X j =>
             if j ≥ nD then next is "X=noop" else
